@@ -65,12 +65,12 @@ CONTRACTS = [
     Contract("utils/tee.py::TeeProcessor.shutdown", extern=True, trusted_reason="waits for the tee workers"),
     Contract("utils/run_arguments.py::RunArguments.empty", returns="bool", extern=True, ensures=["result == ArgsEmpty(self)"], trusted_reason="len(self._args) == 0"),
     Contract("utils/run_options.py::RunOptions.empty", returns="bool", extern=True, ensures=["result == OptionsEmpty(self)"], trusted_reason="len(self._options) == 0"),
-    Contract("utils/run_arguments.py::RunArguments.serialize_json", params={"file_path": "Val[Path]"}, extern=True, modifies=["g_json_written"],
+    Contract("ext::RunArguments.serialize_json", params={"file_path": "Val[Path]"}, modifies=["g_json_written"],
              ensures=["forall(p, 'Val[Path]', (p in g_json_written) == (old(p in g_json_written) or p == file_path))"],
-             raises={"OSError+": []}, trusted_reason="A-LIB: json.dump writes a file that decodes to the arguments (bounded: C10.finish.args_options_json)"),
-    Contract("utils/run_options.py::RunOptions.serialize_json", params={"file_path": "Val[Path]"}, extern=True, modifies=["g_json_written"],
+             raises={"OSError+": []}, trusted_reason="call-site view of RunArguments.serialize_json (verified in contracts/run_args.py): the file at file_path is written"),
+    Contract("ext::RunOptions.serialize_json", params={"file_path": "Val[Path]"}, modifies=["g_json_written"],
              ensures=["forall(p, 'Val[Path]', (p in g_json_written) == (old(p in g_json_written) or p == file_path))"],
-             raises={"OSError+": []}, trusted_reason="A-LIB: json.dump writes a file that decodes to the options"),
+             raises={"OSError+": []}, trusted_reason="call-site view of RunOptions.serialize_json (verified in contracts/run_args.py)"),
     Contract("execution/version_index.py::VersionIndex.insert_output_version", params={"task_identifier": "TaskIdentifier", "version": "Version"}, extern=True,
              requires=[C("only_a_finished_successful_run_is_recorded", "g_ready_to_record", "C06")],
              modifies=["g_row_pending", "g_row_ident", "g_row_version"],
@@ -117,6 +117,7 @@ CONTRACTS = [
     # ------------------------------------------------------------------ finish_execution
     Contract(F + "::RunTaskExecutable.finish_execution", params={"handle": "OperationExecutionHandle", "ctx": "Context"},
              props=["C06", "C10", "C01", "C03", "C16"], abortable=True,
+             prefer_ext={"RunArguments.serialize_json": "RunArguments.serialize_json", "RunOptions.serialize_json": "RunOptions.serialize_json"},
              uses=["path_join_injective"],
              requires=[C("nothing_pending", "not g_row_pending and not g_ready_to_record"),
                        C("handle_of_a_reaped_process", "handle.stdout is not None and handle.stderr is not None and handle.returncode is not None"),
